@@ -41,7 +41,7 @@ func init() {
 				Bounds: map[string]any{"entry_points": 4, "fault_flags": "decode (no value readable | text after the first value), flatten (typed error | plain error | panic | empty graph), compile, eval error, empty result; the failing text submitted twice"}},
 				// which texts are unreadable is decided by the real decoding code, run natively on a family of concrete texts
 				{Pkg: "internal/validator", Fn: "VerifC04Texts", Native: "VerifC04TextsNative", Reach: []string{"returned"},
-					Bounds: map[string]any{"texts": "54 concrete texts that are not a JSON document: empty, blank, truncated values, YAML/RAML documents and flow collections, comments before the value, UTF-8/UTF-16 byte order marks, XML, Turtle, bare words, and a JSON value followed by more text (YAML that starts with a quoted key / number / date / boolean, a second document, stray brackets, NUL)", "entry_points": 4, "decoders_run_natively": "encoding/json Decoder and Unmarshal, OPA util.Unmarshal / UnmarshalJSON (any other decoder of the data text ends the path as unsupported: inconclusive)"}},
+					Bounds: map[string]any{"texts": "60 concrete texts that are not a JSON document: JSON with bytes that are not UTF-8 (Latin-1 in a string or key, a lone lead byte, an encoded surrogate), empty, blank, truncated values, YAML/RAML documents and flow collections, comments before the value, UTF-8/UTF-16 byte order marks, XML, Turtle, bare words, and a JSON value followed by more text (YAML that starts with a quoted key / number / date / boolean, a second document, stray brackets, NUL)", "entry_points": 4, "decoders_run_natively": "encoding/json Decoder and Unmarshal, OPA util.Unmarshal / UnmarshalJSON (any other decoder of the data text ends the path as unsupported: inconclusive)"}},
 				// the command line is an entry point too: a failed validation must not end with status 0
 				{Pkg: "cmd/commands", Fn: "VerifC18Validate", Native: "VerifC18ValidateNative", Reach: []string{"lib-failed"}, Bounds: map[string]any{"library_failure": "any error value | io.ErrUnexpectedEOF (truncated data) | io.EOF (empty data)"}}}
 		},
@@ -98,14 +98,14 @@ func init() {
 				return []HarnessSpec{
 					{Pkg: "internal/parser/path", Fn: "VerifC16Parse5", Reach: []string{"accepted", "accepted-sentence", "rejected"}, Bounds: map[string]any{"length": "1..5 ASCII bytes", "paren_depth": 3}},
 					{Pkg: "internal/parser/path", Fn: "VerifC16Variants5", Reach: []string{"sentence"}, Bounds: map[string]any{"length": "1..5 ASCII bytes"}},
-					{Pkg: "internal/parser/path", Fn: "VerifC16Edits", CrossCheck: true, Reach: []string{"accepted", "rejected"}, Bounds: map[string]any{"sentences": 10, "edits": "insert/replace one symbolic byte at any position, delete one byte, append two symbolic bytes"}},
+					{Pkg: "internal/parser/path", Fn: "VerifC16Edits", CrossCheck: true, Reach: []string{"accepted", "rejected"}, Bounds: map[string]any{"sentences": 10, "edits": "insert/replace one symbolic byte at any position, delete one byte, append two symbolic bytes", "history": "nothing parsed before | the unedited sentence | that and a sequence written with and without blanks"}},
 					{Pkg: "internal/parser/path", Fn: "VerifC16Compose2", Reach: []string{"accepted", "rejected"}, Bounds: map[string]any{"composition": "2 predicates from {a.b, c.d} (repeats included), one symbolic operator byte from {| / blank ^ ( )} between them, an optional symbolic modifier byte from {^ blank * ) |} after each"}},
 					{Pkg: "internal/parser/path", Fn: "VerifC16Compose3", Reach: []string{"accepted", "rejected"}, Bounds: map[string]any{"composition": "3 predicates from {a.b, c.d} (repeats included), one symbolic operator byte from {| / blank ^ ( )} between them, an optional symbolic modifier byte from {^ blank * ) |} after each"}},
 				}
 			}
 			return []HarnessSpec{
 				{Pkg: "internal/parser/path", Fn: "VerifC16Variants3", Reach: []string{"sentence"}, Bounds: map[string]any{"length": "1..3 ASCII bytes"}},
-				{Pkg: "internal/parser/path", Fn: "VerifC16Edits", CrossCheck: true, Reach: []string{"accepted", "rejected"}, Bounds: map[string]any{"sentences": 10, "edits": "insert/replace one symbolic byte at any position, delete one byte, append two symbolic bytes"}},
+				{Pkg: "internal/parser/path", Fn: "VerifC16Edits", CrossCheck: true, Reach: []string{"accepted", "rejected"}, Bounds: map[string]any{"sentences": 10, "edits": "insert/replace one symbolic byte at any position, delete one byte, append two symbolic bytes", "history": "nothing parsed before | the unedited sentence | that and a sequence written with and without blanks"}},
 				{Pkg: "internal/parser/path", Fn: "VerifC16Compose2", Reach: []string{"accepted", "rejected"}, Bounds: map[string]any{"composition": "2 predicates from {a.b, c.d} (repeats included), one symbolic operator byte from {| / blank ^ ( )} between them, an optional symbolic modifier byte from {^ blank * ) |} after each"}},
 				{Pkg: "internal/parser/path", Fn: "VerifC16Parse4", Reach: []string{"accepted", "accepted-sentence", "rejected"}, Bounds: map[string]any{"length": "1..4 ASCII bytes", "paren_depth": 3}},
 			}
